@@ -109,6 +109,9 @@ def test_C08(rep, g):
 
 T_PROPS = {'C08': test_C08}
 
+# properties whose structural (Sigma-free) rules are also applied to the repository's own declarations
+REPO_PROPS = {'C05', 'C03', 'C04', 'C06', 'C10', 'C13'}
+
 
 def run_C11(rep, g):
     rules.check_canonical(rep, g)
